@@ -151,18 +151,19 @@ def xh_key(name, call):
     except Exception:
         arg = ''
     rep = {'_c03_replica_A_replicated_other_symbolic': 'A', '_c03_aggregate_A_replicated_other_symbolic': 'A',
-           '_c03_replica_symbolic_replicated_other_AB': 'AB', '_c03_aggregate_symbolic_replicated': 'AB'}.get(name)
+           '_c03_replica_symbolic_replicated_other_AB': 'AB', '_n03_aggregate_symbolic_replicated': 'AB'}.get(name)
     if rep and isinstance(arg, str):
         overlap = arg.endswith(rep) or rep.endswith(arg)
         special = any(c in arg for c in '+*?()[]{}|^$\\')
-        return '%s|suffix-overlap=%s|regex-special=%s' % (name, overlap, special and not overlap)
+        # keys keep the historical _c03_ prefix (known_findings.json patterns) also for the native-only condition
+        return '%s|suffix-overlap=%s|regex-special=%s' % (name.replace('_n03_', '_c03_'), overlap, special and not overlap)
     return '%s|%r' % (name, arg)
 
 
 def main(tier, seed, only=None):
     rep = Report('C03', tier, seed)
     k = 4 if tier == 'quick' else 5
-    timeout = 45 if tier == 'quick' else 600
+    timeout = 90 if tier == 'quick' else 600
     max_paths = 300000 if tier == 'quick' else 5000000
     rep.functions = ['FlowIR.compile_component_replica', 'FlowIR.compile_component_aggregate', 'FlowIR.replace_strings',
                      'WorkflowGraph.graphFromFlowIR', 'FlowIRConcrete.replicate', 'FlowIR.propagate_replicate', 'FlowIR.apply_replicate',
@@ -171,7 +172,7 @@ def main(tier, seed, only=None):
                   'E1': '%d components over <= %d stages, every forward edge subset, aggregate flags, replicate 1..3 literal, 2 or 12 via variable, '
                         'relative/absolute spelling and file paths (per document)' % (k, 2 if tier == 'quick' else 3), 'max_paths': max_paths,
                   'per_condition_timeout_s': timeout}
-    rep.outside = ['names longer than the bound in the textual layer', 'more than one replication source', 'array-variable indexing with %(replica)s',
+    rep.outside = ['names longer than the bound in the textual layer', 'compile_component_aggregate over a symbolic name of the REPLICATED producer under CrossHair (one path > 90 s; concrete names only, via the structural layer and the native sweep)', 'more than one replication source', 'array-variable indexing with %(replica)s',
                    'DoWhile documents inside replicated regions']
     rep.assumptions = ['E1 layer uses concrete, non-overlapping component names (name interaction is the E2 layer)',
                        'CrossHair counterexamples replayed natively before being reported']
